@@ -62,15 +62,17 @@ Definition next_int_exact (lo hi k : Z) : Z := lo + ((hi - lo + 1) * k) / two53.
 
 Definition bitlen (n : Z) : Z := if n <=? 0 then 0 else Z.log2 n + 1.
 
-(* n >= 0 rounded to 53 significant bits, ties to even *)
+(* n >= 0 rounded to 53 significant bits, ties to even
+   (shifts instead of divisions: the operands have up to 2000 bits) *)
 Definition rne53 (n : Z) : Z :=
   let s := bitlen n - 53 in
   if s <=? 0 then n
   else
-    let q := n / 2 ^ s in
-    let r := n mod 2 ^ s in
-    let h := 2 ^ (s - 1) in
-    (if (h <? r) || ((r =? h) && Z.odd q) then q + 1 else q) * 2 ^ s.
+    let q := Z.shiftr n s in
+    let p := Z.shiftl 1 s in
+    let r := n - q * p in
+    let h := Z.shiftl 1 (s - 1) in
+    (if (h <? r) || ((r =? h) && Z.odd q) then q + 1 else q) * p.
 
 Definition rne53s (n : Z) : Z := if n <? 0 then - rne53 (- n) else rne53 n.
 
@@ -88,7 +90,7 @@ Definition next_int_b64 (lo hi k : Z) : out :=
 Definition float_of_pos (n : Z) : float :=      (* n > 0 with at most 53 significant bits *)
   let s := bitlen n - 53 in
   if s <=? 0 then SF2Prim (S754_finite false (Z.to_pos n) 0)
-  else SF2Prim (S754_finite false (Z.to_pos (n / 2 ^ s)) s).
+  else SF2Prim (S754_finite false (Z.to_pos (Z.shiftr n s)) s).
 
 Definition float_of_repr (n : Z) : float :=
   if n =? 0 then 0%float
